@@ -106,12 +106,12 @@ theorem ensembleSift_cols_le_cap (σ : Schedule) (p : Nat) (draw : ρ → Sig ×
   second; with it the C08 model run for as many stages as the C03 model decides returns the same columns. -/
 
 open Ensemble in
-/-- the ensemble step of layer `cols.length`: layer 0 uses the scaled matrix (and the scale again, as the
-    code does), layer `k+1` the `(k+1)`-fold first-IMF residual of every scaled noise column -/
+/-- the ensemble step of layer `cols.length`: layer 0 uses the scaled matrix (added as it is, as the
+    repaired code does), layer `k+1` the `(k+1)`-fold first-IMF residual of every scaled noise column -/
 def stepNx (F Fn : Sig → Sig) (mode : Ensemble.Mode) (scale : Rat) (M : List Sig) : List Sig → Sig → Sig :=
   fun cols proto =>
     match cols.length with
-    | 0 => stageImf F mode (some scale) proto (M.map (Sig.smul scale))
+    | 0 => stageImf F mode none proto (M.map (Sig.smul scale))
     | k + 1 => stageImf F mode none proto (M.map fun m => residualPow Fn (k + 1) (Sig.smul scale m))
 
 open Ensemble in
@@ -167,12 +167,12 @@ open Ensemble in
 theorem ceemd_eq_specLoop (σ : Nat → Schedule) (p : Nat → Nat) (F Fn : Sig → Sig) (mode : Ensemble.Mode)
     (scale : Rat) (M : List Sig) (x : Sig) (stages : Nat) (hσ : ∀ c, (σ c).Valid M.length (p c)) :
     Ensemble.ceemd σ F Fn mode scale M x stages =
-      specLoop F Fn mode x stages [stageImf F mode (some scale) x (M.map (Sig.smul scale))]
+      specLoop F Fn mode x stages [stageImf F mode none x (M.map (Sig.smul scale))]
         ((M.map (Sig.smul scale)).map (noiseResidual Fn)) := by
   have hM : (M.map (Sig.smul scale)).length = M.length := by simp
   unfold Ensemble.ceemd
   simp only []
-  rw [ceemdImf_eq (σ 0) (p 0) F mode (some scale) x _ (hM ▸ hσ 0),
+  rw [ceemdImf_eq (σ 0) (p 0) F mode none x _ (hM ▸ hσ 0),
     ceemdNoiseStep_eq (σ 1) (p 1) Fn _ (hM ▸ hσ 1)]
   exact ceemdLoop_eq σ p F Fn mode x M.length hσ stages 2 _ _ (by simp)
 
@@ -187,7 +187,7 @@ theorem ceemd_agree (σ : Nat → Schedule) (p : Nat → Nat) (F Fn : Sig → Si
         ((Sift.ceemd (stepNx F Fn mode scale M) thr cap x fuel).1.length - 1)).1
       = (Sift.ceemd (stepNx F Fn mode scale M) thr cap x fuel).1 := by
   rw [ceemd_eq_specLoop σ p F Fn mode scale M x _ hσ]
-  have h0 : stepNx F Fn mode scale M [] x = stageImf F mode (some scale) x (M.map (Sig.smul scale)) := rfl
+  have h0 : stepNx F Fn mode scale M [] x = stageImf F mode none x (M.map (Sig.smul scale)) := rfl
   have hn : (M.map (Sig.smul scale)).map (noiseResidual Fn)
       = M.map fun m => residualPow Fn (0 + 1) (Sig.smul scale m) := by
     rw [List.map_map]; rfl
